@@ -1,4 +1,7 @@
 -- Root of the `FemtoVerif` library: executable models (import-free), driver, and property theorems.
 import FemtoVerif.Model.Filter
 import FemtoVerif.Driver.Dispatch
+import FemtoVerif.Props.C01
+import FemtoVerif.Props.C03
 import FemtoVerif.Props.C11
+import FemtoVerif.Props.C12
